@@ -390,6 +390,12 @@ def decorate_task(s, t, shared_ids):
             if body and s.chance(3):
                 c = gen_ctx(s, allowed)
                 wrap_run(s, body, lambda run: {"op": "with", "ctx": c, "body": run})
+    if allowed and cfg.try_ and cfg.faults and s.chance(8):
+        # a block that is left by an exception which the same task handles, after which the task carries on
+        c = gen_ctx(s, [a for a in allowed if a != "fail"] or allowed)
+        inner = [{"op": "raise", "sid": s.sid()}] if s.chance(2) or not cfg.lazy_raise else [{"op": "yield", "y": ["errfut", s.uid()], "catch": False}]
+        pos_body = pick_block(s, body)
+        pos_body.insert(s.int(0, len(pos_body)), {"op": "try", "body": [{"op": "with", "ctx": c, "body": inner}]})
     if cfg.try_ and cfg.faults and body and s.chance(6):
         wrap_run(s, body, lambda run: {"op": "try", "body": run})
     if cfg.faults and s.chance(12):
@@ -464,7 +470,15 @@ def add_sharing(s, root):
         if s.cfg.sync and s.chance(3):
             # the shared task is computed synchronously (h.value()) by a task that did not create it
             body, lo = lists[s.int(0, len(lists) - 1)]
-            body.insert(s.int(min(lo, len(body)), len(body)), {"op": "syncref", "tid": shared["id"], "catch": s.chance(2)})
+            at = s.int(min(lo, len(body)), len(body))
+            body.insert(at, {"op": "syncref", "tid": shared["id"], "catch": s.chance(2)})
+            held = [c for c in s.cfg.ctx if c in ("rec", "ov", "attr")]
+            if held and s.chance(2):
+                # ... and then, in the same step, enters a block and parks inside it
+                inner = [{"op": "yield", "y": item(s), "catch": False}]
+                if s.cfg.reads:
+                    inner.append({"op": "read", "sv": s.int(0, 1)})
+                body.insert(at + 1, {"op": "with", "ctx": gen_ctx(s, held), "body": inner})
             continue
         st_ = spots[s.int(0, len(spots) - 1)]
         ref = ["ref", shared["id"]]
